@@ -44,7 +44,7 @@ pub fn decode(src: &mut BytesMut) -> Result<Address> {
             let len = src.get_u8();
             let host_bytes = src.split_to(len as usize);
             let port = src.get_u16();
-            let host = unsafe { String::from_utf8_unchecked(host_bytes.to_vec()) };
+            let host = String::from_utf8(host_bytes.to_vec())?;
             Ok(Address::Domain(host, port))
         }
         Socks5AddressType::Ipv6 => {
